@@ -83,11 +83,29 @@ func (p *penum) helperEvents(c *ast.CallExpr) []string {
 		}
 		q := &penum{file: p.file, depth: 1}
 		res := q.walk(fd.Body.List, []lpath{{}})
-		if q.bad != "" || len(res) != 1 {
-			p.bad = "a helper with conditional key-share lock calls (" + name + ")"
+		// a `defer UnlockKeyshare()` inside the helper fires when the HELPER returns, not when its caller does
+		distinct := map[string][]string{}
+		for _, r := range res {
+			ev, deferred := []string{}, 0
+			for _, e := range r.ev {
+				if e == "dU" {
+					deferred++
+				} else {
+					ev = append(ev, e)
+				}
+			}
+			for i := 0; i < deferred; i++ {
+				ev = append(ev, "U")
+			}
+			distinct[strings.Join(ev, ",")] = ev
+		}
+		if q.bad != "" || len(distinct) != 1 {
+			p.bad = "a helper whose paths differ in their key-share lock calls (" + name + ")"
 			return nil
 		}
-		return res[0].ev
+		for _, ev := range distinct {
+			return ev
+		}
 	}
 	return nil
 }
